@@ -475,7 +475,7 @@ def gen_wf(rng, tier, with_long):
 
 
 def gen_malformed(rng, tier):
-    c = gen_archive(rng, tier, with_long=rng.chance(0.3))
+    c = gen_archive(rng, tier, with_long=rng.chance(0.45))
     c["stream"] = "malformed"
     c["access"] = rng.weighted([("open", 5), ("visortarfile", 3), ("gz", 1), ("iter", 3)])
     _, data = layout(c)
@@ -489,7 +489,8 @@ def gen_malformed(rng, tier):
     kinds = rng.randint(1, 2)
     for _ in range(kinds):
         k = rng.weighted([("trunc", 4), ("chk", 2), ("size", 3), ("voff", 4), ("type", 2), ("magic", 2), ("noterm", 2),
-                          ("garbage", 1), ("numfield", 2), ("zero_voff", 2), ("hdr_in_tail", 2)])
+                          ("garbage", 1), ("numfield", 2), ("zero_voff", 2), ("hdr_in_tail", 2), ("signed_chk", 2),
+                          ("after_record", 3), ("record_voff", 2)])
         h = rng.pick(hdr_offsets) if hdr_offsets else 0
         if k == "trunc":
             cut = rng.weighted([(rng.randrange(0, n + 1), 3), (max(0, rng.pick(hdr_offsets or [0]) + rng.pick([0, 1, 100, 511, 512, 513])), 3),
@@ -522,6 +523,31 @@ def gen_malformed(rng, tier):
                           (b"\t7\x1f" + b"\0" * w)[:w], (b"1a" + b"\0" * w)[:w]])
             edits.append(["set", h + off, hx(v)])
             edits.append(["fixchk", h])
+        elif k == "signed_chk" and hdr_offsets:
+            # a header with bytes >= 128 whose checksum was computed with signed chars (Sun / NeXT tars): still valid
+            edits.append(["set", h + 265, hx("ü".encode() * 3)])
+            edits.append(["fixchk-signed", h])
+        elif k == "after_record":
+            # damage the header that follows a long name / link record, or cut the archive right after the record
+            recs = [(o, m) for o, m in zip(hdr_offsets, c["items"]) if m.get("payload") is not None]
+            if recs:
+                o, m = rng.pick(recs)
+                nxt = o + 512 + len(member_data(m))
+                how = rng.pick(["chk", "zero", "trunc", "trunc-mid"])
+                if how == "chk":
+                    edits.append(["set", nxt + 148, hx(b"0000001\0")])
+                elif how == "zero":
+                    edits.append(["set", nxt, hx(b"\0" * 512)])
+                elif how == "trunc":
+                    edits.append(["trunc", nxt])
+                else:
+                    edits.append(["trunc", nxt + rng.randint(1, 511)])
+        elif k == "record_voff":
+            recs = [o for o, m in zip(hdr_offsets, c["items"]) if m.get("payload") is not None and m["visor"]]
+            if recs:
+                o = rng.pick(recs)
+                edits.append(["set", o + 496, hx(struct.pack("<I", rng.pick([1, 512, n // 2, n + 7])))])
+                edits.append(["fixchk", o])
         elif k == "noterm":
             c["term_blocks"] = 0
         elif k == "garbage":
@@ -546,11 +572,15 @@ def gen_malformed(rng, tier):
             if e[1] + len(unhx(e[2])) <= len(buf):
                 buf[e[1]:e[1] + len(unhx(e[2]))] = unhx(e[2])
                 final.append(e)
-        elif e[0] == "fixchk":
+        elif e[0] in ("fixchk", "fixchk-signed"):
             h = e[1]
             if h + 512 <= len(buf):
                 blk = bytes(buf[h:h + 512])
-                chk = 256 + sum(blk[:148]) + sum(blk[156:])
+                if e[0] == "fixchk":
+                    chk = 256 + sum(blk[:148]) + sum(blk[156:])
+                else:
+                    sg = lambda bs: sum(b if b < 128 else b - 256 for b in bs)  # noqa: E731
+                    chk = 256 + sg(blk[:148]) + sg(blk[156:])
                 cb = b"%06o\0 " % chk
                 buf[h + 148:h + 156] = cb
                 final.append(["set", h + 148, hx(cb)])
